@@ -181,7 +181,7 @@ def run_oracle(exe, lines, timeout=180, env=None, tscale=1):
             ok = got[:-1] if (p.stdout and not p.stdout.endswith("\n")) else got
             outs.extend(ok)
             pos += len(ok)
-            tail = (p.stderr or "")[-1500:]
+            tail = (p.stderr or "")[-12000:]
             sig = "CRASH rc=%d %s" % (p.returncode, summarize_san(tail))
             outs.append(sig)
             pos += 1
@@ -195,7 +195,7 @@ def run_oracle(exe, lines, timeout=180, env=None, tscale=1):
 def summarize_san(txt):
     if txt.startswith("TIMEOUT"):
         return "TIMEOUT(hang)"
-    m = re.search(r"(ERROR: AddressSanitizer: [a-z\-]+|runtime error: [^\n]+)", txt)
+    m = re.search(r"((?:ERROR|SUMMARY): AddressSanitizer: [a-z\-]+|runtime error: [^\n]+)", txt)
     loc = re.search(r"#\d+ 0x[0-9a-f]+ in (\w+) ([^\s]+)", txt)
     s = m.group(1) if m else "no-sanitizer-report"
     if loc:
